@@ -107,6 +107,30 @@ def _simp(z):
     return z3.simplify(z)
 
 
+_hq_cache = {}
+
+
+def _has_quant(z):
+    k = z.get_id()
+    r = _hq_cache.get(k)
+    if r is None:
+        r = False
+        stack, seen = [z], set()
+        while stack:
+            x = stack.pop()
+            if x.get_id() in seen:
+                continue
+            seen.add(x.get_id())
+            if z3.is_quantifier(x):
+                r = True
+                break
+            stack.extend(x.children())
+        if len(_hq_cache) > 50000:
+            _hq_cache.clear()
+        _hq_cache[k] = r
+    return r
+
+
 class Engine:
     MAX_PATHS = 4000
 
@@ -154,11 +178,15 @@ class Engine:
             except (PathEnd, Infeasible):
                 pass
 
-    def feasible(self, extra):
+    def feasible(self, extra, full=False):
+        """Path feasibility.  For branch pruning only the quantifier-free part of
+        the path condition is used (an over-approximation: a path kept needlessly
+        only yields vacuous obligations); cover checks use the full condition."""
         s = z3.Solver()
-        s.set("timeout", self.feas_timeout_ms)
+        s.set("timeout", self.feas_timeout_ms if not full else 5000)
         for h in self.pc:
-            s.add(h)
+            if full or not _has_quant(h):
+                s.add(h)
         s.add(extra)
         return s.check() != z3.unsat
 
@@ -220,6 +248,8 @@ class Engine:
         """Python truthiness -> bool or Sym(bool)."""
         if v is None:
             return False
+        if isinstance(v, z3.ExprRef):
+            return self.sbool(v) if z3.is_bool(v) else self.sbool(v != 0)
         if isinstance(v, Sym):
             if v.kind == "bool":
                 return v
